@@ -93,8 +93,8 @@ macro_rules! parts {
     }};
 }
 
-static SYS: LockStep = LockStep { property: "C06", probes: true, seed: Some(&seed), via_feed: false };
-static SYS_MED: LockStep = LockStep { property: "C06", probes: false, seed: Some(&seed), via_feed: false };
+static SYS: LockStep = LockStep { property: "C06", probes: true, seed: Some(&seed), via_feed: false, merged: false };
+static SYS_MED: LockStep = LockStep { property: "C06", probes: false, seed: Some(&seed), via_feed: false, merged: false };
 
 fn alpha_medium(cfg: &Cfg) -> Vec<Op> {
     let mut v = alpha(cfg);
@@ -125,7 +125,7 @@ fn medium_part(tier: Tier) -> Part<'static, LockStep> {
     }
 }
 
-static SYS_CORE: LockStep = LockStep { property: "C06", probes: false, seed: None, via_feed: false };
+static SYS_CORE: LockStep = LockStep { property: "C06", probes: false, seed: None, via_feed: false, merged: false };
 
 /// the core of scrolling over a small alphabet, deeper: regions set and reset, the cursor
 /// inside / above / below them, both screens
@@ -168,7 +168,7 @@ fn core_part(tier: Tier) -> Part<'static, LockStep> {
     }
 }
 
-static SYS_SWEEP: LockStep = LockStep { property: "C06", probes: false, seed: Some(&super::sweep::fill), via_feed: false };
+static SYS_SWEEP: LockStep = LockStep { property: "C06", probes: false, seed: Some(&super::sweep::fill), via_feed: false, merged: false };
 
 fn alpha_sweep(cfg: &Cfg) -> Vec<Op> {
     let mut v = super::sweep::placements(cfg, false);
@@ -255,9 +255,9 @@ fn feed_part(tier: Tier) -> Part<'static, FeedSys> {
 /// scrollback filled to every level around them first (a seed prefix of 8..25 lines), then the
 /// scrolling alphabet. What the terminal retains is C13's and C14's business; here the view
 /// is compared cell by cell and the retained rows must be the most recent ones, unchanged.
-static SYS_L10A: LockStep = LockStep { property: "C06", probes: false, seed: Some(&seed_lines_10), via_feed: false };
-static SYS_L10B: LockStep = LockStep { property: "C06", probes: false, seed: Some(&seed_lines_12), via_feed: false };
-static SYS_L20: LockStep = LockStep { property: "C06", probes: false, seed: Some(&seed_lines_23), via_feed: false };
+static SYS_L10A: LockStep = LockStep { property: "C06", probes: false, seed: Some(&seed_lines_10), via_feed: false, merged: false };
+static SYS_L10B: LockStep = LockStep { property: "C06", probes: false, seed: Some(&seed_lines_12), via_feed: false, merged: false };
+static SYS_L20: LockStep = LockStep { property: "C06", probes: false, seed: Some(&seed_lines_23), via_feed: false, merged: false };
 fn seed_n(n: usize) -> Vec<Cmd> {
     let mut v = vec![Cup(Some(99), Some(1))];
     for i in 0..n {
